@@ -1170,14 +1170,17 @@ register(VGDriver())
 # --------------------------------------------------------------------------
 # Surrogates
 
-SUR_DATA = [[0.0, 1.0, 0.5, 2.0, 1.5, 0.25, 1.75, 0.75],
-            [1.0, 0.5, 2.0, 0.0, 0.25, 1.5, 1.0, 1.25]]
+SUR_DATA = [[0.0, 1.0, 0.5, 2.0, 1.5, 0.25, 1.75, 0.75, 0.0, 1.0, 0.5, 2.0,
+             1.5, 0.25, 1.75, 0.75, 0.25, 1.0, 0.5, 1.75],
+            [1.0, 0.5, 2.0, 0.0, 0.25, 1.5, 1.0, 1.25, 1.0, 0.5, 2.0, 0.0,
+             0.25, 1.5, 1.0, 1.25, 0.75, 0.5, 2.0, 0.25]]
 
 
 class SurrogatesDriver(Driver):
     name = "Surrogates"
     deny = ("refined_AAFT_surrogates",)
     extra_queries = (["twins", [], {"threshold": 0.6, "min_dist": 1}],
+                     ["twins", [], {"threshold": 1.1, "min_dist": 0}],
                      ["refined_AAFT_surrogates", [], {"n_iterations": 2}],
                      ["embedding", [], {}], ["original_data", [], {}])
 
@@ -1198,13 +1201,20 @@ class SurrogatesDriver(Driver):
         return s
 
     def emb(self, s, e):
-        return type(s).embed_time_series_array(s.original_data, e[0], e[1])[0]
+        # (index, time, dimension), as twin_surrogates() stores it
+        return type(s).embed_time_series_array(s.original_data, e[0], e[1])
+
+    min_depth = 3     # twin_surrogates -> normalise -> twin_surrogates
 
     def mutators(self, model):
         ms = []
         for e in ([2, 1], [2, 2]):
-            if e != model["emb"]:
+            if e != model["emb"] or model.get("stale"):
                 ms.append(("embedding=%s" % (e,), ["emb", e]))
+        # twin_surrogates() (re-)embeds the data as a documented side effect
+        for e in ([2, 1], [3, 1]):
+            ms.append(("twin_surrogates(dim=%d,tau=%d)" % tuple(e),
+                       ["twin_surrogates", e]))
         if not model["normalized"]:
             ms.append(("normalize_original_data", ["normalize"]))
         return ms
@@ -1214,11 +1224,20 @@ class SurrogatesDriver(Driver):
         if spec[0] == "emb":
             obj.embedding = self.emb(obj, spec[1])
             m["emb"] = spec[1]
+            m["stale"] = False
+        elif spec[0] == "twin_surrogates":
+            seed_all(99)
+            obj.twin_surrogates(spec[1][0], spec[1][1], 0.6, min_dist=1)
+            m["emb"] = spec[1]
+            m["stale"] = False
         else:
             obj.normalize_original_data()
             m["normalized"] = True
             if model["emb"]:
-                return None   # embedding of pre-normalised data: undocumented
+                # the stored embedding still belongs to the un-normalised
+                # data (undocumented): embedding-dependent queries are not
+                # judged until the data are embedded again
+                m["stale"] = True
         return m
 
     def has_attr(self, a):
@@ -1226,6 +1245,8 @@ class SurrogatesDriver(Driver):
 
     def admits(self, model, q):
         if q[0] == "twins" and not model["emb"]:
+            return False
+        if model.get("stale") and q[0] in ("twins", "embedding"):
             return False
         return True
 
@@ -1373,11 +1394,17 @@ class EventSeriesDriver(_QueryOnly):
         return [{}]
 
     def construct(self, model):
-        ev = [[0, 1, 0], [1, 0, 0], [0, 0, 1], [0, 1, 0], [1, 1, 0],
-              [0, 0, 0], [0, 0, 1], [1, 0, 0], [0, 1, 1], [0, 0, 0]]
-        return self.cls()(self.arr("data", ev, int), taumax=2.0,
+        T = 30
+        ev = np.zeros((T, 4), dtype=int)
+        for t in range(T):
+            ev[t, 0] = 1 if t % 4 == 1 else 0
+            ev[t, 1] = 1 if (t % 4 == 2 or t % 9 == 0) else 0
+            ev[t, 2] = 1 if t % 5 == 0 else 0
+            ev[t, 3] = 1 if (t % 7 == 3 or t % 4 == 1) else 0
+        # (asymmetric directed ES matrix: the symmetrisations all differ)
+        return self.cls()(self.arr("data", ev, int), taumax=3.0,
                           timestamps=self.arr("timestamps",
-                                              np.arange(10.), float))
+                                              np.arange(float(T)), float))
 
 
 register(EventSeriesDriver())
